@@ -139,6 +139,25 @@ func Harness_C10_integers() {
 	} else {
 		vReach("both-reject")
 	}
+	// lax mode only waives minimality: it accepts exactly the 1..8-byte integers, with the
+	// big-endian two's complement value
+	l64, le64 := parseInt64(b, true, "")
+	if n == 0 || n > 8 {
+		vAssert(le64 != nil, "lax parseInt64 still refuses empty and over-long integers")
+	} else {
+		var ref int64
+		for i := 0; i < n; i++ {
+			ref = ref<<8 | int64(b[i])
+		}
+		ref <<= 64 - uint(n)*8
+		ref >>= 64 - uint(n)*8
+		vAssert(le64 == nil && l64 == ref, "lax parseInt64 yields the two's complement value of the octets")
+		l32, le32 := parseInt32(b, true, "")
+		vAssert((le32 == nil) == (ref == int64(int32(ref))), "lax parseInt32 accepts exactly the values that fit")
+		if le32 == nil {
+			vAssert(int64(l32) == ref, "lax parseInt32 value")
+		}
+	}
 	f32, fe32 := parseInt32(b, false, "")
 	s32, se32 := stdParseInt32(b)
 	vAssert((fe32 == nil) == (se32 == nil), "parseInt32: same verdict as upstream")
